@@ -268,7 +268,7 @@ def run(ck):
     C14.FX[0] = 0 if ' ABORT ' in pi[0] else 1
 
     rng = random.Random(ck.seed * 1000003 + 5)
-    n_cases = 1500 if ck.tier == 'quick' else 20000
+    n_cases = 800 if ck.tier == 'quick' else 20000
     fams = ['plain'] * 10 + ['nonfinite'] * 2 + ['hostile-message'] * 2 + ['options-0', 'options-12', 'options-vbtol']
     cases = []
     # fixed corpus first
@@ -368,7 +368,7 @@ def run(ck):
                          {'case': cl, 'impl': a, 'model': b, 'correspondence': 'drv_c05 vs h_solrt'}, found_input=False)
 
     # the codec hypothesis (enc/dec round trip of '{:.16}' + strtod), TESTED on doubles (not proved)
-    nd = 200000 if ck.tier == 'quick' else 5000000
+    nd = 100000 if ck.tier == 'quick' else 5000000
     rc, out, err = sh([exe, 'codec', str(nd), str(ck.seed)], env=env, timeout=3000)
     ck.log('codec test: %s' % out.strip()[:300])
     m = re.search(r'codec n=(\d+) bad=(\d+)', out)
@@ -395,6 +395,7 @@ def run(ck):
         'correspondence': {'lines_compared_model_vs_impl': len(cases), 'disagreements': len(corr_bad)}, 'exhaustive': False,
         'model_variant': 'patched' if C14.FX[0] else 'as-is',
     })
+    ck.notes.append('PARTIAL: message block, vectors and non-finite handling are proved for all inputs; the composition of all sections is proved on concrete solutions only and otherwise covered by the per-run correspondence (sampled); the numeric codec is tested')
     ck.assumptions += [
         'number codec: the text fmt prints for a real ({:.16}) is read by strtod as a value within the property tolerance: TESTED per run, not proved',
         'the theorem is about token equality under the explicit hypothesis GoodNum/GoodSufNum on the printed text (checked on every generated real by the run)',
